@@ -138,7 +138,11 @@ def gen_ticket(tier, seed, sid0):
     n = 400 if tier == "quick" else 6000
     g = generate("gent_sim", "Ticket", c, "sim", n=n, depth=150, seed=seed % 100000 + 1)
     beh = list(g["behaviours"])
-    meta = {"sim_behaviours": len(beh)}
+    # three threads (a buffered pull in flight, a waiter behind it, a skip / single pull): simulated behaviours
+    c3 = cfg(T_BASE, NT=3, SrcLen=3, MaxOps=2, Sizes={2, 3}, OpKinds={"next", "bnew", "bnext", "chunk", "skip"})
+    g3 = generate("gent_sim3", "Ticket", c3, "sim", n=(300 if tier == "quick" else 5000), depth=200, seed=seed % 100000 + 7)
+    beh3 = list(g3["behaviours"])
+    meta = {"sim_behaviours": len(beh), "sim3_behaviours": len(beh3)}
     if tier != "quick":
         c1 = cfg(T_BASE, SrcLen=1, MaxOps=1, Sizes={2}, OpKinds={"next", "chunk", "skip", "hasmore"})
         g1 = generate("gent_2x1", "Ticket", c1, "all", timeout=1500)
@@ -151,6 +155,9 @@ def gen_ticket(tier, seed, sid0):
     for i, hrec in enumerate(beh):
         out.append(scenario_of(hrec, sid0 + len(out), kinds[i % len(kinds)], 2, 2,
                                {"hint": "exact", "tag": {"suite": "gen_ticket", "beh": i}}))
+    for i, hrec in enumerate(beh3):
+        out.append(scenario_of(hrec, sid0 + len(out), kinds[i % len(kinds)], 3, 3,
+                               {"hint": "exact", "tag": {"suite": "gen_ticket3", "beh": i}}))
     for i, hrec in enumerate(beh1):
         out.append(scenario_of(hrec, sid0 + len(out), kinds[i % 2], 1, 2,
                                {"hint": "exact", "tag": {"suite": "gen_ticket_all", "beh": i}}))
